@@ -1,6 +1,8 @@
 // C07 — round trips and format conversions preserve the document.
 #include <ArduinoJson.h>
 
+#include <cfloat>
+
 #include "../engine/runner.hpp"
 #include "../gen/values.hpp"
 #include "../lib/build.hpp"
@@ -85,6 +87,18 @@ static void add_binext(Val& v, cs::Src& s) {
   }
 }
 
+#if !ARDUINOJSON_USE_DOUBLE
+static void narrow_floats(Val& v) {
+  if (v.k == Val::Flt && std::isfinite(v.d)) {
+    float f = (float)v.d;
+    if (std::isinf(f)) f = v.d < 0 ? -FLT_MAX : FLT_MAX;
+    v.d = (double)f;
+  }
+  for (auto& e : v.a) narrow_floats(e);
+  for (auto& kv : v.o) narrow_floats(kv.second);
+}
+#endif
+
 static void run_case(cs::Src& s, cs::Ctx& ctx) {
   ctx.evaluations++;
   gen::Opts o;
@@ -102,6 +116,10 @@ static void run_case(cs::Src& s, cs::Ctx& ctx) {
     o.max_depth = 2;
   }
   Val v = gen::gen_value(s, o);
+#if !ARDUINOJSON_USE_DOUBLE
+  // JsonFloat is float: the documents of this configuration hold float values only
+  narrow_floats(v);
+#endif
   if (msgpack_only) add_binext(v, s);
   ctx.current_rendering = "value: " + ref::render(v);
 
